@@ -90,6 +90,16 @@ pub fn next(rng: &mut Rng, i: u64) -> (String, Value) {
         4 => ("pkgpath".into(), json!({"s": codes(&mt!(rng, names::pkgpath(rng), "../../"))})),
         5 => ("depend".into(), json!({"s": codes(&cap_braces(mt!(rng, names::depend(rng), ":")))})),
         6 => ("sumparse".into(), json!({"text": codes(&mt!(rng, summaries::faulty_text(rng), "SIZE_PKG=99999999999999999999\n"))})),
+        // scale: more than 64 KiB pending without a complete record, writes ending inside characters
+        7 if rng.chance(1, 40) => {
+            let line = "DESCRIPTION=d\u{e9}j\u{e0} \u{65e5}\u{672c} \u{10fffd} x\n";
+            let mut s: Vec<u8> = b"PKGNAME=big-1.0\n".to_vec();
+            for _ in 0..rng.range(2400, 3000) { s.extend_from_slice(line.as_bytes()); }
+            if rng.chance(1, 2) { s.extend_from_slice(b"\n"); }
+            let l = s.len();
+            let size = *rng.pick(&[997usize, 4099, 8191, 65537]);
+            ("stream".into(), json!({"chunks": summaries::cut(&s, &(1..l).filter(|i| i % size == 0).collect::<Vec<_>>())}))
+        }
         7 => {
             let bad = if rng.chance(1, 2) { Some(rng.below(6)) } else { None };
             let s = summaries::stream(rng, bad);
